@@ -803,7 +803,7 @@ pub fn run(opts: &Opts) -> i32 {
     }
     let nviol = violations.len();
     let outcome = harness::conclude(PROP, violations, opts, &harness::verify_in_fresh_process);
-    ev.write(opts, nviol);
+    ev.write(opts, outcome.unlisted as usize, nviol);
     println!(
         "C09 {}: {} programs ({} skipped, {} not compiled) x {} schedules = {} runs, {} distinct interleavings, {} violations ({} known), {:.1}s",
         opts.tier.name(),
